@@ -111,12 +111,31 @@ type c01Must struct {
 	mt        string                 // the media type assumed (for helpers called per kind)
 	isMT      func(v ssa.Value) bool // recognises loads of Descriptor.MediaType
 	depth     int
+	params    map[*ssa.Parameter]c01Arg // what the helper's parameters stand for at this call
 }
 
-func newC01Must(fn *ssa.Function, k *cut) *c01Must {
-	m := &c01Must{fn: fn, k: k, nilEdges: map[string][]Edge{}, undecided: map[string]bool{}, memo: map[ssa.Value]c01Set{}, inprog: map[ssa.Value]bool{}}
+// c01Arg: what a helper parameter stands for at one call site.
+type c01Arg struct {
+	set    *c01Set // the decoded members the argument carries (e.g. manifest.Subject -> {subject})
+	isBool bool    // a constant flag
+	val    bool
+}
+
+func newC01Must(fn *ssa.Function, k *cut, params map[*ssa.Parameter]c01Arg) *c01Must {
+	m := &c01Must{fn: fn, k: c01CutUnion(k), nilEdges: map[string][]Edge{}, undecided: map[string]bool{}, memo: map[ssa.Value]c01Set{}, inprog: map[ssa.Value]bool{}, params: params}
 	for _, i := range Ifs(fn) {
 		cond, t, f := ifEdges(i)
+		// a constant flag parameter decides its branches
+		if prm, isParam := cond.(*ssa.Parameter); isParam {
+			if a, ok := params[prm]; ok && a.isBool {
+				if a.val {
+					m.k.Edges(f)
+				} else {
+					m.k.Edges(t)
+				}
+			}
+			continue
+		}
 		bo, ok := cond.(*ssa.BinOp)
 		if !ok || (bo.Op != token.EQL && bo.Op != token.NEQ) {
 			continue
@@ -129,14 +148,24 @@ func newC01Must(fn *ssa.Function, k *cut) *c01Must {
 		} else {
 			continue
 		}
-		p, ok := c01ValuePath(x)
-		if !ok || len(p.JSON) != 1 {
+		name := ""
+		if prm, isParam := x.(*ssa.Parameter); isParam {
+			// a pointer parameter standing for exactly one decoded member (subjectNodes(manifest.Subject))
+			if a, ok := params[prm]; ok && a.set != nil && len(a.set.m) == 1 {
+				for n := range a.set.m {
+					name = n
+				}
+			}
+		} else if p, ok := c01ValuePath(x); ok && len(p.JSON) == 1 {
+			name = p.JSON[0]
+		}
+		if name == "" {
 			continue
 		}
 		if bo.Op == token.NEQ {
 			t = f
 		}
-		m.nilEdges[p.JSON[0]] = append(m.nilEdges[p.JSON[0]], t)
+		m.nilEdges[name] = append(m.nilEdges[name], t)
 	}
 	return m
 }
@@ -180,7 +209,23 @@ func (m *c01Must) viaHelper(call *ssa.Call) (c01Set, bool) {
 	if g == nil || !inModule(g) || len(g.Blocks) == 0 || m.depth >= 3 || m.isMT == nil || g == m.fn {
 		return c01Set{}, false
 	}
-	set, n, und := c01CoverageDepth(g, c01StrTests(g, m.isMT), m.mt, m.isMT, m.depth+1)
+	params := map[*ssa.Parameter]c01Arg{}
+	for i, a := range call.Call.Args {
+		if i >= len(g.Params) {
+			break
+		}
+		if k, isK := a.(*ssa.Const); isK && k.Value != nil {
+			if b, isB := k.Type().Underlying().(*types.Basic); isB && b.Info()&types.IsBoolean != 0 {
+				params[g.Params[i]] = c01Arg{isBool: true, val: boolConst(k)}
+				continue
+			}
+		}
+		if c01DescriptorCarrier(a.Type()) {
+			st := m.must(a)
+			params[g.Params[i]] = c01Arg{set: &st}
+		}
+	}
+	set, n, und := c01CoverageDepth(g, c01StrTests(g, m.isMT), m.mt, m.isMT, m.depth+1, params)
 	for _, u := range und {
 		m.undecided[u] = true
 	}
@@ -196,6 +241,10 @@ func (m *c01Must) must1(v ssa.Value) c01Set {
 		return s
 	}
 	switch u := v.(type) {
+	case *ssa.Parameter:
+		if a, ok := m.params[u]; ok && a.set != nil {
+			return *a.set
+		}
 	case *ssa.Const, *ssa.MakeSlice:
 		return empty
 	case *ssa.Phi:
@@ -285,12 +334,12 @@ func (m *c01Must) must1(v ssa.Value) c01Set {
 // c01CoverageOf evaluates, for one function and one media-type case, which
 // link members every feasible successful return contains.
 func c01CoverageOf(fn *ssa.Function, tests []c01StrTest, mt string, isMT func(v ssa.Value) bool) (set c01Set, nReturns int, undecided []string) {
-	return c01CoverageDepth(fn, tests, mt, isMT, 0)
+	return c01CoverageDepth(fn, tests, mt, isMT, 0, nil)
 }
 
-func c01CoverageDepth(fn *ssa.Function, tests []c01StrTest, mt string, isMT func(v ssa.Value) bool, depth int) (set c01Set, nReturns int, undecided []string) {
-	k := c01CaseCut(tests, mt)
-	m := newC01Must(fn, k)
+func c01CoverageDepth(fn *ssa.Function, tests []c01StrTest, mt string, isMT func(v ssa.Value) bool, depth int, params map[*ssa.Parameter]c01Arg) (set c01Set, nReturns int, undecided []string) {
+	m := newC01Must(fn, c01CaseCut(tests, mt), params)
+	k := m.k
 	m.mt, m.isMT, m.depth = mt, isMT, depth
 	acc := c01Set{top: true}
 	errIdx := ErrResultIndex(fn.Signature)
@@ -299,7 +348,13 @@ func c01CoverageDepth(fn *ssa.Function, tests []c01StrTest, mt string, isMT func
 			continue
 		}
 		nReturns++
-		acc = c01Inter(acc, m.must(r.Results[0]))
+		st := m.must(r.Results[0])
+		for f, ne := range m.nilEdges {
+			if MustPass(r, c01CutUnion(k, newCut().Edges(ne...))) {
+				st = st.with(f) // this return is reached only with the member nil: nothing to return for it
+			}
+		}
+		acc = c01Inter(acc, st)
 	}
 	for u := range m.undecided {
 		undecided = append(undecided, u)
@@ -388,7 +443,10 @@ func c01R2(c *Ctx) {
 	const RF = "C01.R2.foreign-layer-filter"
 	c.Expect(R, 2)
 	c.Expect(RF, 5)
-	ts := traversalClosures(c.P)
+	var ts []*ssa.Function
+	for _, tr := range c01Traversals(c.P) {
+		ts = append(ts, tr.Body)
+	}
 	if len(ts) == 0 {
 		c.LostAnchor(R, "traversal closure (calls Tracker.TryCommit and syncutil.Go) in package ~")
 		return
@@ -545,15 +603,15 @@ func c01CheckForeignFilter(c *Ctx, R string, g *ssa.Function) {
 	gn := FnName(g)
 	var loop *Loop
 	for _, l := range Loops(g) {
-		if rg, _, _, _, ok := l.RangeIndex(); ok && c01SameStrip(rg, g.Params[0]) {
+		if rg, _, _, _, ok := c01ElemLoop(l); ok && c01SameStrip(rg, g.Params[0]) {
 			loop = l
 		}
 	}
 	if loop == nil || len(Loops(g)) != 1 {
-		c.Undecided(R, gn+"|keeps-non-foreign", g.Pos(), "filter is not a single range loop over its parameter")
+		c.Undecided(R, gn+"|keeps-non-foreign", g.Pos(), "filter is not a single loop visiting every element of its parameter (range or index form)")
 		return
 	}
-	_, idx, body, _, _ := loop.RangeIndex()
+	_, idx, body, _, _ := c01ElemLoop(loop)
 	header := loop.Header
 	isElem := func(v ssa.Value) bool {
 		for _, r := range Roots(v) {
@@ -844,7 +902,11 @@ func c01TagEffectsD(f *ssa.Function, isRef func(v ssa.Value) bool, depth int) []
 				out = append(out, call.(ssa.Instruction))
 			}
 		default:
-			if g := StaticCallee(call); g != nil && inModule(g) {
+			g := StaticCallee(call)
+			if g == nil && !call.Common().IsInvoke() {
+				g, _ = c01FuncOfValue(call.Common().Value) // a local closure held in a (captured) variable
+			}
+			if g != nil && inModule(g) {
 				if i := c01RefParamOf(g); i >= 0 && i < len(args) && isRef(args[i]) {
 					out = append(out, call.(ssa.Instruction))
 					continue
@@ -904,7 +966,7 @@ func c01R4(c *Ctx) {
 		if g == nil || !inModule(g) {
 			continue
 		}
-		if len(storesOf(g, skipped)) > 0 {
+		if c01ReachesFieldStore(g, skipped, 3, map[*ssa.Function]bool{}) {
 			prepCall = call
 		}
 		if graphFns[g] {
@@ -978,45 +1040,141 @@ func c01R4(c *Ctx) {
 		}
 		return out
 	}
-	sk, prs, pos := storesOf(P, skipped), storesOf(P, pre), storesOf(P, post)
-	okSk, okPP := len(sk) > 0, len(prs)+len(pos) > 0
-	for _, r := range succ(P) {
-		cs := newCut()
-		for _, s := range sk {
-			cs.Instr(s)
+	// install points of a field in f: stores, and calls of module helpers that install on each of their successful returns
+	var installs func(f *ssa.Function, fvs []*types.Var, depth int) []ssa.Instruction
+	installs = func(f *ssa.Function, fvs []*types.Var, depth int) []ssa.Instruction {
+		var out []ssa.Instruction
+		for _, fv := range fvs {
+			for _, st := range storesOf(f, fv) {
+				out = append(out, st)
+			}
 		}
-		if !MustPass(r, cs) {
+		if depth >= 3 {
+			return out
+		}
+		for _, call := range Calls(f, func(string) bool { return true }) {
+			g := StaticCallee(call)
+			if g == nil || !inModule(g) || len(g.Blocks) == 0 || g == f {
+				continue
+			}
+			if _, isDefer := call.(*ssa.Defer); isDefer {
+				continue
+			}
+			inner := installs(g, fvs, depth+1)
+			if len(inner) == 0 {
+				continue
+			}
+			all := true
+			for _, r := range succ(g) {
+				if !MustPass(r, newCut().Instr(inner...)) {
+					all = false
+				}
+			}
+			if all {
+				out = append(out, call.(ssa.Instruction))
+			}
+		}
+		return out
+	}
+	skI, ppI := installs(P, []*types.Var{skipped}, 0), installs(P, []*types.Var{pre, post}, 0)
+	okSk, okPP := len(skI) > 0, len(ppI) > 0
+	for _, r := range succ(P) {
+		if !MustPass(r, newCut().Instr(skI...)) {
 			okSk = false
 		}
-		cp := newCut()
-		for _, s := range append(append([]*ssa.Store{}, prs...), pos...) {
-			cp.Instr(s)
-		}
-		if !MustPass(r, cp) {
+		if !MustPass(r, newCut().Instr(ppI...)) {
 			okPP = false
 		}
 	}
 	pn := FnName(P)
 	c.Check(R, pn+"|installs-OnCopySkipped", P.Pos(), okSk, ifelse(okSk, "an OnCopySkipped wrapper is installed on every successful path", "a path returns without installing the OnCopySkipped wrapper: an already-present root is never tagged"))
 	c.Check(R, pn+"|installs-PreCopy-or-PostCopy", P.Pos(), okPP, ifelse(okPP, "a PreCopy or PostCopy wrapper is installed on every successful path", "a path returns without installing a PreCopy/PostCopy wrapper: a copied root is never tagged"))
-	// (c) each installed closure tags the root with the captured reference
-	refParam := P.Params[refIdx]
-	var rootParam *ssa.Parameter
-	for i, a := range prepCall.Common().Args {
-		if a == prepRoot {
-			rootParam = P.Params[i]
+	// (c) each installed wrapper tags the root with the carried reference.  The stores may sit in helpers of P:
+	// walk P and its module callees, mapping each helper's parameters back to the values Copy passed.
+	capturedFrom := func(v ssa.Value, prm *ssa.Parameter) bool { return c01CarriedFrom(c.P, v, prm) }
+	type leaf struct {
+		fn                  *ssa.Function
+		refParam, rootParam *ssa.Parameter
+	}
+	var leaves []leaf
+	var walk func(f *ssa.Function, subst map[*ssa.Parameter]ssa.Value, depth int, seen map[*ssa.Function]bool)
+	walk = func(f *ssa.Function, subst map[*ssa.Parameter]ssa.Value, depth int, seen map[*ssa.Function]bool) {
+		if seen[f] {
+			return
+		}
+		seen[f] = true
+		if len(storesOf(f, skipped))+len(storesOf(f, pre))+len(storesOf(f, post)) > 0 {
+			l := leaf{fn: f}
+			for prm, v := range subst {
+				if c01SameStrip(v, prepCall.Common().Args[refIdx]) {
+					l.refParam = prm
+				}
+				if prepRoot != nil && c01SameStrip(v, prepRoot) {
+					l.rootParam = prm
+				}
+			}
+			leaves = append(leaves, l)
+		}
+		if depth >= 3 {
+			return
+		}
+		for _, call := range Calls(f, func(string) bool { return true }) {
+			g := StaticCallee(call)
+			if g == nil || !inModule(g) || len(g.Blocks) == 0 || len(call.Common().Args) != len(g.Params) {
+				continue
+			}
+			if !c01ReachesFieldStore(g, skipped, 3, map[*ssa.Function]bool{}) && !c01ReachesFieldStore(g, pre, 3, map[*ssa.Function]bool{}) && !c01ReachesFieldStore(g, post, 3, map[*ssa.Function]bool{}) {
+				continue
+			}
+			sub := map[*ssa.Parameter]ssa.Value{}
+			for k, a := range call.Common().Args {
+				if q := c01ParamOf(a); q != nil && q.Parent() == f {
+					if v, ok := subst[q]; ok {
+						sub[g.Params[k]] = v
+						continue
+					}
+				}
+				sub[g.Params[k]] = a
+			}
+			walk(g, sub, depth+1, seen)
 		}
 	}
-	capturedFrom := func(v ssa.Value, prm *ssa.Parameter) bool { return c01CarriedFrom(c.P, v, prm) }
-	for _, inst := range []struct {
-		role   string
-		stores []*ssa.Store
-	}{{"PreCopy", prs}, {"PostCopy", pos}, {"OnCopySkipped", sk}} {
-		for _, s := range inst.stores {
+	sub0 := map[*ssa.Parameter]ssa.Value{}
+	for k, a := range prepCall.Common().Args {
+		if k < len(P.Params) {
+			sub0[P.Params[k]] = a
+		}
+	}
+	walk(P, sub0, 0, map[*ssa.Function]bool{})
+	sort.Slice(leaves, func(i, j int) bool { return leaves[i].fn.String() < leaves[j].fn.String() })
+	type installed struct {
+		role                string
+		store               *ssa.Store
+		refParam, rootParam *ssa.Parameter
+	}
+	var insts []installed
+	for _, role := range []struct {
+		name string
+		fv   *types.Var
+	}{{"PreCopy", pre}, {"PostCopy", post}, {"OnCopySkipped", skipped}} {
+		for _, l := range leaves {
+			for _, st := range storesOf(l.fn, role.fv) {
+				insts = append(insts, installed{role.name, st, l.refParam, l.rootParam})
+			}
+		}
+	}
+	for _, inst := range insts {
+		{
+			s := inst.store
+			refParam, rootParam := inst.refParam, inst.rootParam
 			W, _ := c01FuncOfValue(s.Val)
 			key := pn + "$" + inst.role + "|tags-root"
 			if W == nil || len(W.Blocks) == 0 {
 				c.Undecided(R, key, s.Pos(), "the installed "+inst.role+" is not a closure, method value or function of the module")
+				continue
+			}
+			if refParam == nil || rootParam == nil {
+				c.Undecided(R, key, s.Pos(), "cannot map the parameters of "+FnName(s.Parent())+" back to the reference / root that Copy passes to the hook installer")
 				continue
 			}
 			eqT, _, _ := CallTests(W, "~/content.Equal", func(call *ssa.Call) bool {
@@ -1059,9 +1217,10 @@ func c01R4(c *Ctx) {
 		}
 	}
 	// (f) the traversal notifies OnCopySkipped for a node that already exists
-	for _, T := range traversalClosures(c.P) {
+	for _, tr := range c01Traversals(c.P) {
+		T := tr.Body
 		tn := c01ClosureKey(T, "traverse")
-		var existsTrue []Edge
+		var existsTrue, existsFalse []Edge
 		for _, call := range Calls(T, func(n string) bool { return n == "(~/content.ReadOnlyStorage).Exists" }) {
 			prm := c01ParamOf(call.Common().Args[len(call.Common().Args)-1])
 			if prm == nil || prm.Parent() != T {
@@ -1071,8 +1230,9 @@ func c01R4(c *Ctx) {
 				continue // the cache-existence check after the wait
 			}
 			if v := ResultOf(call, 0); v != nil {
-				te, _ := BoolTests(T, Aliases(v))
+				te, fe := BoolTests(T, Aliases(v))
 				existsTrue = append(existsTrue, te...)
+				existsFalse = append(existsFalse, fe...)
 			}
 		}
 		cbs, _ := c01CallbackSites(T, skipped)
@@ -1082,8 +1242,15 @@ func c01R4(c *Ctx) {
 			continue
 		}
 		var bad *ssa.Return
+		notified := newCut().Calls(cbs).Edges(nilE...)
+		nilCC := c01NilConds(T, c04FieldValues(T, skipped))
 		for _, e := range existsTrue {
-			if r := c01SuccessReturnFrom(T, e, newCut().Calls(cbs).Edges(nilE...), nil); r != nil {
+			// a second test of the same value (switch cases): paths that reach it through the callback / its nil branch are
+			// already fine, paths through a false edge of the same value contradict the true edge
+			if !c01ReachPS(T.Blocks[0], 0, nil, e.From.Instrs[len(e.From.Instrs)-1], c01CutUnion(notified, newCut().Edges(existsFalse...)), nilCC) {
+				continue
+			}
+			if r := c01SuccessReturnFrom(T, e, notified, nil, nilCC); r != nil {
 				bad = r
 			}
 		}
